@@ -179,5 +179,45 @@ theorem gen_withMethods_compiles (A : App) (G : A.leaf.Good) (hwf : A.wf = true)
   rw [hm, gen_elements_complex]
   rfl
 
+theorem lookup_app {α} (a b : List (Key × α)) (k : Key) : (a ++ b).lookup k = ((a.lookup k).or (b.lookup k)) := by
+  induction a with
+  | nil => simp [List.lookup]
+  | cons e r ih =>
+    obtain ⟨k', v⟩ := e
+    simp only [List.cons_append, List.lookup]
+    cases k == k' <;> simp [ih]
+
+/-- the element declared for a message of the method table is a global element of the set -/
+theorem elems_declared (S : Schema) (M : Methods) (m : Text × Key) (hm : m ∈ M.elems) :
+    ((S.withMethods M).elements.lookup (S.tns, m.1)).isSome = true := by
+  show ((S.elements.filter (fun e => !M.noElem.contains e.1) ++
+      dedupKeys ((M.elems.map (fun m => ((S.tns, m.1), m.2))).filter
+        (fun e => ((S.elements.filter (fun e => !M.noElem.contains e.1)).lookup e.1).isNone))).lookup (S.tns, m.1)).isSome = true
+  cases hk : (S.elements.filter (fun e => !M.noElem.contains e.1)).lookup (S.tns, m.1) with
+  | some v => rw [lookup_app, hk]; rfl
+  | none =>
+    rw [lookup_app, hk]
+    simp only [Option.none_or]
+    rw [lookup_dedupKeys]
+    have hmem : ((S.tns, m.1), m.2) ∈ (M.elems.map (fun m => ((S.tns, m.1), m.2))).filter
+        (fun e => ((S.elements.filter (fun e => !M.noElem.contains e.1)).lookup e.1).isNone) := by
+      apply List.mem_filter.mpr
+      exact ⟨List.mem_map.mpr ⟨m, hm, rfl⟩, by show (List.lookup (S.tns, m.1) _).isNone = true; rw [hk]; rfl⟩
+    exact lookup_isSome_of_mem _ _ hmem
+
+/-- **root of a bare response.** When the serializer names a not-wrapped response after the out
+    message's `sub_name` (`bareRootIsSubName`, T1), the root element of the response of every method
+    of the table — class typed or built-in typed — is an element the published set declares. -/
+theorem bare_root_declared (F : Facts06) (hF : F.bareRootIsSubName = true) (S : Schema) (M : Methods)
+    (subName typeName : Text)
+    (hm : (∃ k, (subName, k) ∈ M.elems) ∨ (M.prims.lookup subName).isSome = true) :
+    S.declaresRoot M (S.tns, bareRootName F subName typeName) = true := by
+  unfold Schema.declaresRoot bareRootName
+  rw [hF]
+  simp only [if_true, Bool.or_eq_true, Bool.and_eq_true, decide_eq_true_eq]
+  rcases hm with ⟨k, hk⟩ | h
+  · exact Or.inl (elems_declared S M (subName, k) hk)
+  · exact Or.inr ⟨trivial, h⟩
+
 end Schema
 end SpyneModel
